@@ -68,6 +68,7 @@ def kindOfJson (j : Json) : Except String Kind := do
   match ← str j with
   | "ucast" => return .ucast
   | "view" => return .view
+  | "sel" => return .sel
   | "other" => return .other
   | k => throw s!"bad kind {k}"
 
